@@ -32,6 +32,9 @@ RULE = ('Partial roots over lattice / class / dataclass targets (positional-only
         'ArgFactory), nested Partial and shared factory-free nodes; call sequences of length '
         '1-5 with keyword overrides and extra positional arguments. Non-trivial: >=1 ArgFactory '
         'reachable and >=2 calls; distinct = (target, DAG sketch, call pattern).')
+RULE_ADDITIONS = (' Added by the rounds of seeded changes (DESIGN 9.7): ' +
+                  'built object is a functools.partial; bare Partials (one object per instance and per build); failing factories, calls after a failed call, concurrent calls; container type registered late with factories inside; values identical to the default object, trailing-default probe against functools.partial; factories with positional-only bound arguments')
+RULE = RULE + RULE_ADDITIONS
 ASSUMPTIONS = [
     'functools.partial over ArgModel.call_args() with per-call evaluation of factories is the '
     'specification of the binding; the model DAG classifies positions as build-time/per-call',
